@@ -337,6 +337,8 @@ def gen_linebased(rng, fmt, kind="dna", nrec=None, tier="quick"):
             for j in range(0, len(desc), 4):
                 dl.append(" ".join(desc[j:j + 4]))
                 out.append("DE   " + dl[-1] + rng.choice(["", " ", "."]) + eol)
+            if rng.random() < 0.2:       # ... also behind the real AC / DE lines
+                out.append(rng.choice(["DE  not a description", "DEX  not a description", "AC  Z99999;", "SQ  x", "SQX  Sequence"]) + eol)
             dtxt = None
             out.append("SQ   Sequence %d BP;%s" % (L, eol))
             for p in range(0, L, per):
@@ -344,13 +346,20 @@ def gen_linebased(rng, fmt, kind="dna", nrec=None, tier="quick"):
                 out.append("     " + " ".join(ln[k:k + 10] for k in range(0, len(ln), 10)) + ("   %9d" % min(L, p + per) if rng.random() < 0.8 else "") + eol)
         else:
             out.append("LOCUS       %s %d bp    DNA%s" % (name, L, eol))
-            if rng.random() < 0.25:
-                out.append(rng.choice(["VERSION  Z99999.1", "VERSIONS  Z99999.1", "DEFINITIO  nothing", "DEFINITIONX nothing", "ORIGI", "ORIGI N", "VERSION", "LOCUS  decoy 1 bp"]) + eol)
+            hl = []
             for j in range(0, len(desc), 4):
-                out.append(("DEFINITION  " if j == 0 else "            ") + " ".join(desc[j:j + 4]) + eol)
+                hl.append(("DEFINITION  " if j == 0 else "            ") + " ".join(desc[j:j + 4]) + eol)
             if acc:
-                out.append("ACCESSION   %s%s" % (acc.split(".")[0], eol))
-                out.append("VERSION     %s  GI:%d%s" % (acc, rng.randrange(1, 99999), eol))
+                hl.append("ACCESSION   %s%s" % (acc.split(".")[0], eol))
+                hl.append("VERSION     %s  GI:%d%s" % (acc, rng.randrange(1, 99999), eol))
+            if rng.random() < 0.35:
+                # lines that match a keyword only on a shorter / longer prefix must be skipped - anywhere in the header, also BEHIND the
+                # real VERSION / DEFINITION lines (a reader matching a shorter prefix would overwrite the accession / extend the description)
+                for _ in range(rng.choice([1, 1, 2])):
+                    hl.insert(rng.randrange(0, len(hl) + 1),
+                              rng.choice(["VERSION  Z99999.1", "VERSION  Z99999.1", "VERSIONS  Z99999.1", "DEFINITIO  nothing", "DEFINITION nothing", "DEFINITIONX nothing",
+                                          "ORIGI", "ORIGI N", "VERSION", "LOCUS  decoy 1 bp"]) + eol)
+            out += hl
             out.append("ORIGIN      " + eol)
             for p in range(0, L, per):
                 ln = seq[p:p + per]
@@ -997,7 +1006,7 @@ C04_THEOREMS = ["fwd_first_window", "fwd_windows_tile", "rev_first_window", "rev
                 "readInfo_closed_form", "readSequence_closed_form", "read_readInfo_readSequence_agree",
                 "windows_eq_read", "windows_then_ready", "file_windows_eq_specFasta", "windows_concat_eq_read", "windows_coords", "read_nres_closed_form", "readBlock_short_eq_read", "write_read_roundtrip", "writeFasta_is_fastaText", "write_read_roundtrip_digital", "writeFasta_is_fastaText_digital",
                 "loadbuf_line_closed_form", "loadbuf_line_block_size_independent", "open_line_based",
-                "rev_first_window_eq_revcomp_slice", "rev_next_window_eq_revcomp_slice",
+                "rev_first_window_eq_revcomp_slice", "rev_next_window_eq_revcomp_slice", "rev_window_eq_revcomp_slice_line", "rev_window_eq_revcomp_slice_residue",
                 "header_embl_block_size_independent", "header_genbank_block_size_independent", "read_linebased_block_size_independent", "open_line_based_sim",
                 "read_all_linebased_block_size_independent", "readInfo_readSequence_linebased_block_size_independent",
                 "readWindow_readBlock_linebased_block_size_independent"]
